@@ -73,10 +73,39 @@ func c01Struct(rc txRecipe) (fs []rep.Finding) {
 	{
 		h1, h2 := tx.Bytes(), tx.ExtendedBytes()
 		k1, k2 := append([]byte(nil), h1...), append([]byte(nil), h2...)
+		var parts, partsWas [][]byte
+		parts = append(parts, tx.TxIDBytes())
+		for _, in := range tx.Inputs {
+			parts = append(parts, in.Bytes(false), in.Bytes(true))
+		}
+		for _, out := range tx.Outputs {
+			parts = append(parts, out.Bytes(), out.BytesForSigHash())
+		}
+		for _, b := range parts {
+			partsWas = append(partsWas, append([]byte(nil), b...))
+		}
 		o := toLib(ref)
 		o.Version, o.LockTime = ^o.Version, ^o.LockTime
+		for _, in := range o.Inputs {
+			in.SequenceNumber, in.PreviousTxOutIndex = ^in.SequenceNumber, ^in.PreviousTxOutIndex
+		}
+		for _, out := range o.Outputs {
+			out.Satoshis = ^out.Satoshis
+		}
 		for i := 0; i < 3; i++ {
 			_, _, _, _ = o.ExtendedBytes(), o.Bytes(), o.TxID(), tx.Size()
+			for _, in := range o.Inputs {
+				_, _ = in.Bytes(true), in.Bytes(false)
+			}
+			for _, out := range o.Outputs {
+				_, _ = out.BytesForSigHash(), out.Bytes()
+			}
+		}
+		for i := range parts {
+			if !bytes.Equal(parts[i], partsWas[i]) {
+				fs = append(fs, rep.F("Bytes|returned-slice-changes-later", "bytes returned by TxIDBytes / Input.Bytes / Output.Bytes changed when another object was serialised"))
+				return
+			}
 		}
 		if !bytes.Equal(h1, k1) || !bytes.Equal(h2, k2) {
 			fs = append(fs, rep.F("Bytes|returned-slice-changes-later", "bytes returned by an earlier serialisation changed when another serialisation was made"))
